@@ -39,11 +39,21 @@ def findings_tables():
 
 
 def seeded_table():
-    rows = ["| seeded change | breaks | needs to manifest | caught by (quick tier) | missed by |", "|----|----|----|----|----|"]
+    """one row per confirmed seeded change: seeded/<id>/meta.json (what was run, which quick checks report it now) joined
+    with seeded/summary.json (hand-written: what the change is, what it needs, what the first run showed, what was added)"""
+    summ = {}
+    sp = os.path.join(ROOT, "seeded", "summary.json")
+    if os.path.exists(sp):
+        summ = json.load(open(sp))
+    rows = ["| seeded change | what | needs to manifest | first run | strengthening | reported now by (quick tier) | not reported by |",
+            "|----|----|----|----|----|----|----|"]
     for fn in sorted(glob.glob(os.path.join(ROOT, "seeded", "*", "meta.json"))):
         m = json.load(open(fn))
-        rows.append("| %s | %s | %s | %s | %s |" % (m["id"], m["property"], m["needs"].replace("|", "\\|"),
-                                                   ", ".join(m.get("caught_by", [])) or "-", ", ".join(m.get("missed_by", [])) or "-"))
+        u = summ.get(m["id"], {})
+        esc = lambda t: (t or "-").replace("|", "\\|")
+        rows.append("| %s | %s | %s | %s | %s | %s | %s |" % (
+            m["id"], esc(u.get("what")), esc(u.get("needs") or m.get("needs", "")[:200]), esc(u.get("first")),
+            esc(u.get("strengthening")), ", ".join(m.get("caught_by", [])) or "-", ", ".join(m.get("missed_by", [])) or "-"))
     return "\n".join(rows)
 
 
